@@ -201,7 +201,8 @@ def rule_chain(ctx, F, rule2="R2", rule3="R3"):
 
 def rule_registration(ctx, F, rule="R4"):
     b = F.one(crate="bevy_mina", name="register_animation_key", impl_trait="bevy_mina::AnimationAppExt")
-    ps = pse.Engine(F, inline=lambda fn, bb: False).run(b)
+    # helpers of the crate are followed (the ordering may be built in a private function)
+    ps = pse.Engine(F, inline=lambda fn, bb: F.body_unit[bb["id"]][0] == "bevy_mina").run(b)
     ok = len(ps) == 1
     if ok:
         cs = calls(ps[0], lambda e: True)
